@@ -232,3 +232,31 @@ func VerifC08PlusDots() {
 		nd.Reach("applied")
 	}
 }
+
+// VerifC08DotsBudget: a list that does not match a pattern with many
+// elisions is rejected in time polynomial in their number (the search over
+// placements must not repeat itself): 12 elisions against 27 elements.
+func VerifC08DotsBudget() {
+	pat := strings.Repeat(".b", 11) + ".a"
+	fset := token.NewFileSet()
+	pp, err := parse.Parse(fset, "p.patch", []byte(c04PatchSep(pat, "f(", ")", ",")))
+	if err != nil {
+		panic("harness: " + err.Error())
+	}
+	prog, err := Compile(fset, pp)
+	if err != nil {
+		panic("harness: " + err.Error())
+	}
+	const n = 27
+	file, err := parser.ParseFile(fset, "a.go", "package p\n\nvar _ = f("+c04Repeat(n, "b", ", ")+")\n", 0)
+	if err != nil {
+		panic("harness: " + err.Error())
+	}
+	call := file.Decls[0].(*ast.GenDecl).Specs[0].(*ast.ValueSpec).Values[0].(*ast.CallExpr)
+	last := nd.Byte("last")
+	nd.Assume(nd.And(last >= 'a', last <= 'c'))
+	call.Args[n-1].(*ast.Ident).Name = string([]byte{last})
+	_, got := prog.Changes[0].matcher.NodeMatcher.Match(reflect.ValueOf(call), data.New(), nodeRegion(call))
+	nd.Assert(nd.Iff(got, last == 'a'), "f(..., b ×11, ..., a) matches 27 elements iff the last one is a")
+	nd.Reach("decided")
+}
